@@ -39,6 +39,12 @@ def scenario_of(case):
     reactions = []
     if case.get("close_at") is not None:
         reactions.append({"when": ["time_after_ready", case["close_at"] * GRID + t_reply], "do": [["close", 1000, "bye"]]})
+        # the application goes on using the object while the closing handshake is pending: further close() calls
+        # (documented no-ops) and sends (refused) at later times must not move any deadline
+        for off, what in case.get("while_closing", []):
+            action = {"close": ["close", 1001, "again"], "close_default": ["close"], "send": ["send_text", "late"],
+                      "ping": ["ping", "6c"]}[what]
+            reactions.append({"when": ["time_after_ready", (case["close_at"] + off) * GRID + t_reply], "do": [action]})
     copts = {"poll": case["p"], "ping_rate": case["r"], "ping_timeout": case["t"], "close_timeout": case["c"]}
     return build.scenario(script, connect_opts=copts, reactions=reactions, horizon=horizon + 100.0)
 
@@ -164,7 +170,8 @@ class C15(Prop):
     level = "exploration"
     rule = ("virtual-clock histories: poll p, ping_rate r (incl. 0), ping_timeout t (incl. None/0), close_timeout c (incl. None/0) "
             "from dyadic grids x 0-15 arrivals (Pong/Ping/data) at generated times on a 1/8 s grid (optionally exactly on multiples "
-            "of r or p, or one grid step before/after a deadline) x optional close() at the first event at/after a drawn time x "
+            "of r or p, or one grid step before/after a deadline) x optional close() at the first event at/after a drawn time, then optionally further close() calls / "
+            "sends while the closing handshake is pending x "
             "optional server Close reply at a drawn time x handshake reply delayed by a drawn time x EOF at a horizon. Oracle: "
             "bounds on the virtual timestamps of Poll / Unresponsive / Disconnected events and of automatic Ping frames, relative "
             "to Ready, exactly as in the statement. Non-trivial = a ping / unresponsive / close-timeout fires, or is just avoided "
@@ -196,8 +203,13 @@ class C15(Prop):
                 base = close_at + int(p / GRID)
                 reply_at = base + draw(st.one_of(st.integers(0, 80), st.sampled_from(
                     [int(x / GRID) for x in (c or 0, (c or 0) + p)] + [0]), ))
+            while_closing = []
+            if close_at is not None:
+                while_closing = draw(st.lists(st.tuples(st.integers(1, 120), st.sampled_from(
+                    ["close", "close", "close_default", "send", "ping"])).map(list), max_size=4))
             return {"p": p, "r": r, "t": t, "c": c, "horizon": horizon, "arrivals": arrivals,
-                    "close_at": close_at, "reply_at": reply_at, "t_reply": draw(st.sampled_from([0, 0, 3, 10]))}
+                    "close_at": close_at, "reply_at": reply_at, "t_reply": draw(st.sampled_from([0, 0, 3, 10])),
+                    "while_closing": while_closing}
         return case()
 
     def enumerations(self, tier):
@@ -207,10 +219,13 @@ class C15(Prop):
                 for r in sorted(set(RATES)):
                     for t in (None, 0, 1.0, 2.5, 10.0):
                         for c in CTIMEOUTS:
-                            for kind in range(3):
+                            for kind in range(4):
                                 arr = [] if kind != 1 else [[k * 8, "pong"] for k in range(1, 12)]
+                                # kind 3: close(), then close() again every second while the handshake is pending
+                                again = [[8 * k, "close"] for k in range(1, 12)] if kind == 3 else []
                                 yield {"p": p, "r": r, "t": t, "c": c, "horizon": 120, "arrivals": arr,
-                                       "close_at": 24 if kind == 2 else None, "reply_at": None, "t_reply": 3}
+                                       "close_at": 24 if kind >= 2 else None, "reply_at": None, "t_reply": 3,
+                                       "while_closing": again}
         return [Enumeration("parameter_grid", grid, exhaustive=True)]
 
     def run_case(self, case):
